@@ -308,6 +308,36 @@ func (g *Gen) SetupBound(rule string) (sc BoundScenario, ok bool) {
 			return a.oneV1(txn)
 		}
 		return sc, true
+	case "v1-signature-timelock-unknown-algorithm":
+		// Conditions with one key of an algorithm the validator does not know (its signature is taken on trust, the
+		// soft-fork rule) and one ed25519 key, both required. The timelock sits on the signature of the unknown key
+		// only; a signature's timelock is a property of the transaction, not of the algorithm that made it.
+		T := child + ahead
+		lock := g.W.Reg(MakeLock(LockSpec{Kind: KindIndex("v1-unknown-algo"), K1: 1}))
+		id, okp := b.PayV1To(lock.Address())
+		if !okp || !finish() {
+			return sc, false
+		}
+		sc.From, sc.To = T-2, T+1
+		sc.Want = func(a *Adv) bool { return a.Child >= T }
+		sc.Build = func(a *Adv) (types.Block, consensus.V1BlockSupplement, bool) {
+			txn, ok := a.spendV1Forced(id, lock, 0)
+			if !ok {
+				return types.Block{}, consensus.V1BlockSupplement{}, false
+			}
+			marked := false
+			for i := range txn.Signatures {
+				if k := txn.Signatures[i].PublicKeyIndex; k < uint64(len(lock.UC.PublicKeys)) && lock.UC.PublicKeys[k].Algorithm == UnknownAlgo {
+					txn.Signatures[i].Timelock = T
+					marked = true
+				}
+			}
+			if !marked {
+				return types.Block{}, consensus.V1BlockSupplement{}, false
+			}
+			return a.oneV1(txn)
+		}
+		return sc, true
 	case "v2-above":
 		H := child + ahead
 		lock := g.W.Reg(MakeLock(LockSpec{Kind: KindIndex("above-and-pk"), K1: 1, Height: H}))
@@ -751,7 +781,7 @@ var BoundRules = []string{
 	"v2-above", "v2-after", "v1-revision-window-start", "v1-revision-window-unchanged", "v1-proof-window", "v1-formation-window-start", "v1-proof-after-window-revised-in-block",
 	"v2-revision-proof-height", "v2-proof-height", "v2-expiration-height", "v2-formation-proof-height",
 	"v1-until-require-height", "v2-from-allow-height", "v2-ephemeral-parent-maturity", "v1-in-block-claim-maturity", "v1-devaddr-override-timelock",
-	"v1-single-key-timelock", "v1-single-key-timelock-revealed-without-the-lock",
+	"v1-single-key-timelock", "v1-single-key-timelock-revealed-without-the-lock", "v1-signature-timelock-unknown-algorithm",
 }
 
 // EmptyBlock applies an honest block without transactions (used to advance the chain).
